@@ -19,6 +19,21 @@ def main():
     a = ap.parse_args()
     pid = a.pid.upper()
     ck = Check(pid, a.tier, a.seed, a.replay)
+
+    # watchdog: a run that does not finish (an implementation that no longer terminates on some input, a stuck
+    # subprocess) is reported, with the stream that was running, instead of hanging the caller
+    import threading
+    limit = float(os.environ.get('VERIF_WATCHDOG_S', '2700' if a.tier == 'quick' else '21600'))
+
+    def expired():
+        ck.broken.append(f'watchdog: the check did not finish within {limit:.0f}s (the implementation or a checker '
+                         f'subprocess no longer terminates); last log line: {getattr(ck, "last_log", "")}')
+        rc = ck.finish(getattr(sys.modules.get(f'harness.props.{pid.lower()}'), 'LEVEL', 'proof'))
+        sys.stdout.flush()
+        os._exit(rc or 1)
+    wd = threading.Timer(limit, expired)
+    wd.daemon = True
+    wd.start()
     try:
         mod = importlib.import_module(f'harness.props.{pid.lower()}')
         mod.run(ck)
